@@ -81,7 +81,7 @@ def gen_scripts(ck, ns, cat, ops, modes, genlen, num, seed, maxepoch=3, bug=True
     cfg = GEN_CFG % dict(ns=ns, maxepoch=maxepoch, bug="TRUE" if bug else "FALSE", cat=cat, ops=tla_set(ops),
                          modes=tla_set(modes), genlen=genlen, witness=witness, inflight=inflight)
     name = "EngineGen_run.cfg"
-    beh = ck.tlc_scripts("EngineGen", name, num=num, depth=genlen + 4 * ns + 6, seed=seed, timeout=900, files={name: cfg})
+    beh = ck.tlc_scripts("EngineGen", name, num=num, depth=genlen + 4 * ns + 6, seed=seed, timeout=3000, files={name: cfg})
     plain, wit = [], []
     seen = set()
     for b in beh:
@@ -106,7 +106,7 @@ def gen_scripts(ck, ns, cat, ops, modes, genlen, num, seed, maxepoch=3, bug=True
     return plain, kept
 
 
-def run_scripts(ck, binp, scripts, procs=4, timeout=900):
+def run_scripts(ck, binp, scripts, procs=4, timeout=3000):
     """Run the scripts on the real engine (several harness processes); returns list of per-script event lists."""
     import subprocess
     procs = max(1, min(procs, len(scripts)))
@@ -155,7 +155,7 @@ def _tlc_trace(ck, events, ns, prop, bug, loose=False, printat=0, inv="", tag="v
     name = "TraceEngine_run.cfg"
     tp = os.path.join(ck.tmp, "tr_%s_%d.ndjson" % (tag, ck._n))
     vkit.write_ndjson(tp, events)
-    r = ck.tlc_validate("TraceEngine", name, tp, files={name: cfg}, timeout=1500)
+    r = ck.tlc_validate("TraceEngine", name, tp, files={name: cfg}, timeout=3000)
     m = re.search(r'<<"DEPTH", (\d+)>>', r.out)
     r.depth_reached = int(m.group(1)) if m else 0
     m = re.search(r'<<"KF", "(.*)">>', r.out)
@@ -277,7 +277,7 @@ def tla_to_py(txt):
 
 
 def witness(ck, scenario, ns=2, cat="c08", ops=("Put", "Bcast", "GC", "SetMode"), modes=("rw", "ro"), inflight=2, maxepoch=1,
-            timeout=900, tag="", required=True):
+            timeout=3000, tag="", required=True):
     """Ask TLC for the shortest replayable behaviour of the AS-IS model violating `inv` (expected to fail).
     Returns a script or None when the model has no such behaviour."""
     name = "Engine_witness_%s.cfg" % re.sub(r"\W", "_", scenario)
@@ -316,7 +316,7 @@ def parallel(ck, jobs, workers=4):
 
 
 # --------------------------------------------------------------------------- generic property runner (C20, C19)
-def run_property(ck, prop, model_cfgs, witnesses, gens, classes_what, procs=4, par=4, timeout=3000):
+def run_property(ck, prop, model_cfgs, witnesses, gens, classes_what, procs=4, par=4, timeout=7200):
     """model_cfgs: exhaustive cfgs that must pass; witnesses: kwargs of witness(); gens: kwargs of gen_scripts();
     runs everything on the real engine, validates, reports classes. Returns (scripts, per, hit)."""
     skip_model = bool(ck.replay) or bool(os.environ.get("VERIF_ENGINE_SKIP_MODEL"))   # (env = mutation-testing shortcut only)
